@@ -192,6 +192,9 @@ class WeightingQuery(WrappingQuery):
         WrappingQuery.__init__(self, child)
         self.weighting = weighting
 
+    def _rewrap(self, child):
+        return self.__class__(child, self.weighting)
+
     def matcher(self, searcher, context=None):
         # Replace the passed-in weighting with the one configured on this query
         context.set(weighting=self.weighting)
